@@ -24,7 +24,7 @@ THEOREMS = [
     'C18.delta_interpolates', 'C18.delta_periodic_offlattice',
     'C18.a12_pos_inverse', 'C18.a12_pos_inverse_many', 'C18.pos_xy_inverse', 'C18.pos_xy_inverse_many',
     'C18.planeNormal_perp', 'C18.xy_default_inverse', 'C18.E_interchangeable', 'C18.model_roundtrip',
-    'C18.total_is_sum', 'C18.total_is_sum_of_terms', 'C18.elastic_symmetric_quadratic', 'C18.elastic_polarization',
+    'C18.E_other_basis', 'C18.frameK_symmetric', 'C18.total_is_sum', 'C18.total_is_sum_of_terms', 'C18.elastic_symmetric_quadratic', 'C18.elastic_polarization',
     'C18.elastic_scaling', 'C18.density_shift_invariant', 'C18.elastic_shift_invariant',
     'C18.energy_state_only', 'C18.longrange_after_edit', 'C18.setters_frame', 'C18.solve_kwargs',
     'C18.solve_ends_fixed', 'C18.solve_interior', 'C18.recompose_decompose',
@@ -204,6 +204,49 @@ class Rec:
         return getattr(self.f, k)
 
 
+def spy_nearest(g):
+    """wrap the nearest-value interpolants (smooth=False); returns (E recorder, delta recorder or None)."""
+    re_ = Rec(g._GammaSurface__E_gsf_nearest)
+    g._GammaSurface__E_gsf_nearest = re_
+    rd = None
+    if hasattr(g, '_GammaSurface__delta_nearest'):
+        rd = Rec(g._GammaSurface__delta_nearest)
+        g._GammaSurface__delta_nearest = rd
+    return re_, rd
+
+
+def _nearest_case(ctx, spec, g, rec, queries, field='E'):
+    """smooth=False: the (a1, a2) pairs handed to the nearest-value interpolant are the model's `wrapN` of the
+    query, in this order."""
+    np = _np()
+    q1 = np.array([p[0] for p in queries], dtype=float)
+    q2 = np.array([p[1] for p in queries], dtype=float)
+    rec.calls.clear()
+    fn = g.E_gsf if field == 'E' else g.delta
+    impl = call(fn, a1=q1.copy(), a2=q2.copy(), smooth=False)
+    rep = {'op': 'nearest', 'spec': spec, 'queries': [list(p) for p in queries], 'field': field}
+    if isinstance(impl, Raised) or len(rec.calls) != 1:
+        ctx.disagree('nearest:calls', f'{field}(smooth=False): {impl if isinstance(impl, Raised) else str(len(rec.calls)) + " interpolant calls"}', rep)
+        return
+    (pts,), fv = rec.calls[0]
+    rows = [t for p in zip(q1, q2) for t in p]
+    vals = cm.unfrs(ctx.driver.ask(f'delta {len(queries)} ' + cm.frs(rows)))
+    exact = spec['regime'] == 'dyadic'
+    pts = np.asarray(pts).reshape(-1, 2)
+    for i in range(len(queries)):
+        w1, w2 = vals[2 * i], vals[2 * i + 1]
+        near = (not exact) and any(abs(F(q) - round(F(q))) < F(1, 10 ** 9) for q in (q1[i], q2[i]))
+        ctx.stats.case('nearest', (field, i, float(q1[i]), float(q2[i]), spec['tag'], spec['n1'], spec['n2']), nontrivial=not near,
+                       sample={'op': f'{field}(smooth=False)', 'a1': float(q1[i]), 'a2': float(q2[i]), 'wrapped': [float(w1), float(w2)]})
+        if near:
+            continue
+        ok = (F(float(pts[i, 0])) == w1 and F(float(pts[i, 1])) == w2) if exact else \
+            (cm.close(pts[i, 0], w1, 0, 1e-9) and cm.close(pts[i, 1], w2, 0, 1e-9))
+        if not ok or np.ravel(impl)[i] != np.ravel(fv)[i]:
+            ctx.disagree('nearest:wrap', f'{field}(smooth=False) asks the nearest-value interpolant at ({pts[i, 0]!r}, {pts[i, 1]!r}) '
+                         f'for the query ({q1[i]!r}, {q2[i]!r}); model ({float(w1)!r}, {float(w2)!r})', dict(rep, index=i))
+
+
 def spy(g):
     """wrap the fitted interpolants of a GammaSurface; returns (E recorder, delta recorder or None)."""
     re_ = Rec(g._GammaSurface__E_gsf_fit)
@@ -322,6 +365,15 @@ def _egsf_case(ctx, spec, g, rec, cs, queries, via='a12', xname='default'):
         if via == 'pos':
             impl = call(g.E_gsf, pos=P.copy())
             o2 = ctx.driver.ask(f'q2apos {head} {m} ' + cm.frs(P))
+        elif via == 'vects':
+            # fractional coordinates relative to ANOTHER basis of the plane, given as crystal vectors
+            v1, v2 = np.array(spec['a1vect']), np.array(spec['a2vect'])
+            w1, w2 = {'sum': (v1 + v2, v2), 'swap': (v2, v1), 'shear': (v1, v2 - 2 * v1), 'a1only': (v1 + v2, None)}[xname]
+            B = np.eye(3) if spec['box'] is None else np.array(spec['box'], dtype=float)
+            B1 = np.array([float(t) for t in cm.unfrs(ctx.driver.ask('cart ' + cm.frs(w1) + ' ' + cm.frs(B)))])
+            B2 = A2 if w2 is None else np.array([float(t) for t in cm.unfrs(ctx.driver.ask('cart ' + cm.frs(w2) + ' ' + cm.frs(B)))])
+            impl = call(g.E_gsf, a1=q1.copy(), a2=q2.copy(), a1vect=w1, **({} if w2 is None else {'a2vect': w2}))
+            o2 = ctx.driver.ask(f'q2avec {head} {cm.frs(B1)} {cm.frs(B2)} {m} ' + cm.frs([t for p in queries for t in p]))
         else:
             X = {'default': None, 'a2': A2.copy(), 'mix': A1 * 0.5 - A2 * 1.5}[xname]
             Xv = A1 if X is None else X
@@ -1055,8 +1107,13 @@ def correspond(ctx):
             guarded(ctx, 'egsf:pos', rep, _egsf_case, ctx, spec, g, rec, cs, qs, 'pos')
             for xname in ('default', rng.choice(['a2', 'mix'])):
                 guarded(ctx, 'egsf:xy', rep, _egsf_case, ctx, spec, g, rec, cs, qs, 'xy', xname)
+            guarded(ctx, 'egsf:vects', rep, _egsf_case, ctx, spec, g, rec, cs, qs, 'vects', rng.choice(['sum', 'swap', 'shear', 'a1only']))
             if recd is not None:
                 guarded(ctx, 'delta', rep, _delta_case, ctx, spec, g, recd, gen_queries(rng, spec, ctx.n(10, 30), F(0), F(0)))
+        rn, rnd = spy_nearest(g)
+        guarded(ctx, 'nearest', rep, _nearest_case, ctx, spec, g, rn, gen_queries(rng, spec, ctx.n(8, 20), F(0), F(0)))
+        if rnd is not None:
+            guarded(ctx, 'nearest', rep, _nearest_case, ctx, spec, g, rnd, gen_queries(rng, spec, ctx.n(4, 10), F(0), F(0)), 'delta')
         guarded(ctx, 'conv', rep, _conv_case, ctx, spec, g, rng)
     ctx.extra['t_gamma_s'] = round(time.time() - t0, 2)
     # ---- SDVPN
@@ -1076,6 +1133,11 @@ def correspond(ctx):
             continue
         if cs is None:
             continue
+        out = ctx.driver.ask('frame ' + ' '.join(cm.frs(t) for t in (np.array([v.m, v.n, v.ξ]), v.K_tensor, v.burgers, v.transform)))
+        ctx.stats.case('frame', (name,), sample={'op': 'SDVPN(volterra=): K_tensor, burgers, transform in the [m, n, xi] frame', 'system': name})
+        got = np.concatenate([np.ravel(pn.K_tensor), np.ravel(pn.burgers), np.ravel(pn.transform)])
+        if out.startswith('err:') or not cm.allclose(got, cm.unfrs(out), 1e-12, 1e-13):
+            ctx.disagree('frame', f'K_tensor / burgers / transform of SDVPN(volterra=) differ from M K M^T, M b, M T ({name})', rep)
         for it in range(ctx.n(5, 40)):
             guarded(ctx, 'sdvpn', rep, _sdvpn_case, ctx, name, pn, rec, cs, spec, rng, dyadic=(it % 2 == 0))
         for it in range(ctx.n(2, 10)):
@@ -1198,11 +1260,19 @@ def chk_gamma(ctx, case):
         w = str(r) if isinstance(r, Raised) else _cmp(r, [spec['E'][i % ns]], 0, tolE)
         if w:
             bad('interpolates', f'E_gsf(a1={float(s1[i % ns])!r}, a2={float(s2[i % ns])!r}) (scalars) != input energy {spec["E"][i % ns]!r}: {w}')
+    r = call(g.E_gsf, a1=s1.copy(), a2=s2.copy(), smooth=False)
+    w = str(r) if isinstance(r, Raised) else _cmp(r, spec['E'], 0, 0)
+    if w:
+        bad('interpolates', f'E_gsf(smooth=False) (nearest measured value) at the sampled shifts is not the input energy: {w}')
     if has_d:
         r = call(g.delta, a1=s1.copy(), a2=s2.copy())
         w = str(r) if isinstance(r, Raised) else _cmp(r, spec['delta'], 0, tolD)
         if w:
             bad('delta-interpolates', f'delta at the sampled shifts does not reproduce the input: {w}')
+        r = call(g.delta, a1=s1.copy(), a2=s2.copy(), smooth=False)
+        w = str(r) if isinstance(r, Raised) else _cmp(r, spec['delta'], 0, 0)
+        if w:
+            bad('delta-interpolates', f'delta(smooth=False) at the sampled shifts is not the input: {w}')
     # -- (2) periodic in both shift vectors
     q = case['queries']
     q1 = np.array([t[0] for t in q], dtype=float)
@@ -1233,6 +1303,13 @@ def chk_gamma(ctx, case):
             w = str(r) if isinstance(r, Raised) else _cmp(r, np.asarray(Da)[offl], 0, tolD)
             if w:
                 bad('delta-periodic', f'delta(a1 + {n_}, a2 + {m_}) != delta(a1, a2): {w}')
+    # With the duplicated a = 1 edge in the data the cushion is 0: no blending, and E_gsf jumps at the cell edge by the
+    # Rbf's own non-periodicity (~1e-3 relative).  A query ON the edge that goes through a float solve (pos=, x=/y=,
+    # a1vect=) may land on either side: such points are exempt from the value comparisons below (not from the
+    # conversions), exactly the discontinuity the model places there.
+    c1_, c2_ = (1 - max(spec['a1'])) / 2, (1 - max(spec['a2'])) / 2
+    inner = np.array([not ((c1_ == 0 and abs(a - round(a)) < 1e-9) or (c2_ == 0 and abs(b_ - round(b_)) < 1e-9))
+                      for a, b_ in zip(q1, q2)])
     # -- (3)+(4) conversions against the exact oracle, mutual inverses, interchangeable entry points
     P = [o_pos(A1, A2, (FF(a), FF(b))) for a, b in zip(q1, q2)]
     Pf = np.array([[float(t) for t in p_] for p_ in P])
@@ -1283,12 +1360,12 @@ def chk_gamma(ctx, case):
              r if isinstance(r, Raised) else np.array([np.ravel(r[0]), np.ravel(r[1])]), np.array([q1, q2]), 1e-9)
         # interchangeable: the same physical points asked for in plotting coordinates
         r = call(g.E_gsf, x=XY[:, 0].copy(), y=XY[:, 1].copy(), **kw)
-        w = str(r) if isinstance(r, Raised) else _cmp(r, Ea, 0, tolE)
+        w = str(r) if isinstance(r, Raised) else _cmp(np.asarray(r)[inner], Ea[inner], 0, tolE)
         if w:
             bad('interchangeable', f'E_gsf(x=, y=, xvect={xname}) != E_gsf(a1=, a2=) for the same points: {w}; '
                                    f'a1={q1.tolist()}, a2={q2.tolist()}, x={XY[:, 0].tolist()}, y={XY[:, 1].tolist()}')
         r = call(g.E_gsf, x=float(XY[0, 0]), y=float(XY[0, 1]), **kw)
-        w = str(r) if isinstance(r, Raised) else _cmp(r, Ea[:1], 0, tolE)
+        w = str(r) if isinstance(r, Raised) else _cmp(r, Ea[:1], 0, tolE) if inner[0] else None
         if w:
             bad('interchangeable', f'E_gsf(x={float(XY[0, 0])!r}, y={float(XY[0, 1])!r}, xvect={xname}) (one point) != E_gsf(a1={q1[0]!r}, a2={q2[0]!r}): {w}')
         if Da is not None and offl.any():
@@ -1297,11 +1374,25 @@ def chk_gamma(ctx, case):
             if w:
                 bad('interchangeable', f'delta(x=, y=, xvect={xname}) != delta(a1=, a2=): {w}')
     r = call(g.E_gsf, pos=Pf.copy())
-    w = str(r) if isinstance(r, Raised) else _cmp(r, Ea, 0, tolE)
+    w = str(r) if isinstance(r, Raised) else _cmp(np.asarray(r)[inner], Ea[inner], 0, tolE)
     if w:
         bad('interchangeable', f'E_gsf(pos=) != E_gsf(a1=, a2=) for the same points: {w}; a1={q1.tolist()}, a2={q2.tolist()}')
+    # fractional coordinates relative to another basis of the plane (a1vect=, a2vect= keywords): with
+    # B1 = v1 + v2, B2 = v2 the point (a1, a2) is the surface's own (a1, a1 + a2); B1 = v2, B2 = v1 swaps them
+    v1, v2 = np.array(spec['a1vect'], dtype=float), np.array(spec['a2vect'], dtype=float)
+    for nm, kw, (o1, o2) in (('a1vect=v1+v2, a2vect=v2', {'a1vect': v1 + v2, 'a2vect': v2}, (q1, q1 + q2)),
+                              ('a1vect=v1+v2', {'a1vect': v1 + v2}, (q1, q1 + q2)),
+                              ('a1vect=v2, a2vect=v1', {'a1vect': v2, 'a2vect': v1}, (q2, q1)),
+                              ('a2vect=v2-2v1', {'a2vect': v2 - 2 * v1}, (q1 - 2 * q2, q2))):
+        want = call(g.E_gsf, a1=np.array(o1, dtype=float), a2=np.array(o2, dtype=float))
+        r = call(g.E_gsf, a1=q1.copy(), a2=q2.copy(), **kw)
+        inn = np.array([not ((c1_ == 0 and abs(a - round(a)) < 1e-9) or (c2_ == 0 and abs(b_ - round(b_)) < 1e-9))
+                        for a, b_ in zip(np.ravel(o1), np.ravel(o2))])
+        w = str(r) if isinstance(r, Raised) else str(want) if isinstance(want, Raised) else _cmp(np.asarray(r)[inn], np.asarray(want)[inn], 0, tolE)
+        if w:
+            bad('interchangeable', f'E_gsf(a1=, a2=, {nm}) != E_gsf of the same points in the own basis: {w}; a1={q1.tolist()}, a2={q2.tolist()}')
     r = call(g.E_gsf, pos=Pf[0].copy())
-    w = str(r) if isinstance(r, Raised) else _cmp(r, Ea[:1], 0, tolE)
+    w = str(r) if isinstance(r, Raised) else _cmp(r, Ea[:1], 0, tolE) if inner[0] else None
     if w:
         bad('interchangeable', f'E_gsf(pos=one position) != E_gsf(a1={q1[0]!r}, a2={q2[0]!r}): {w}')
     if Da is not None and offl.any():
@@ -1544,7 +1635,18 @@ def chk_sdvpn(ctx, case):
         bad('construct', f'constructing the SDVPN object raised {type(e).__name__}: {e}')
         return
     mod = sys.modules['atomman.defect.SDVPN']
-    K, b, T = np.array(pn.K_tensor, dtype=float).copy(), np.array(pn.burgers, dtype=float).copy(), np.array(pn.transform, dtype=float).copy()
+    # the object's K_tensor / burgers / transform: the Volterra solution's, expressed in its [m, n, xi] frame
+    # (K' = M K M^T, b' = M b, T' = M T with rows of M = m, n, xi) -- own exact evaluation
+    M = [fvec(v.m), fvec(v.n), fvec(v.ξ)]
+    Kv, bv, Tv = [fvec(r_) for r_ in v.K_tensor], fvec(v.burgers), [fvec(r_) for r_ in v.transform]
+    K = np.array([[float(sum(M[i][k] * Kv[k][l] * M[j][l] for k in range(3) for l in range(3))) for j in range(3)] for i in range(3)])
+    b = np.array([float(sum(M[i][k] * bv[k] for k in range(3))) for i in range(3)])
+    T = np.array([[float(sum(M[i][k] * Tv[k][j] for k in range(3))) for j in range(3)] for i in range(3)])
+    ctx.stats.case('s:frame-setup', (case['system'],))
+    w = (_cmp(pn.K_tensor, K, 1e-12, 1e-14) or _cmp(pn.burgers, b, 1e-12, 1e-14) or _cmp(pn.transform, T, 1e-12, 1e-14))
+    if w:
+        bad('frame-setup', f'K_tensor / burgers / transform of the object are not the Volterra solution\'s in its [m, n, xi] frame: {w}')
+        return
     x, d = np.array(case['x'], dtype=float), np.array(case['d'], dtype=float)
     _check_terms(ctx, case, bad, pn, g, K, b, T, A1, A2, st, x, d, True, 'fresh object', scale)
     for k, op in enumerate(case.get('ops', [])):
